@@ -457,10 +457,11 @@ class Prop(BaseProp):
         keys = set()
         digests = []
         sample = {}
+        hs_sensitive = S.hash_seed_sensitive(case["spec"])
         for schedule, g, log in pair.outputs:
             sites = tuple(sorted(set((e[5], e[3]) for e in log)))
             keys.add(derive(shape, sites) & 0xFFFFFFFFFFFF)
-            digests.append(fast_digest([log, canon(g)]))
+            digests.append(fast_digest([log, None if hs_sensitive else canon(g)]))
             if not sample:
                 sample.update({"S": repr_short(s_sch), "v": canon(v)[:200], "vkind": case["vkind"],
                                "R": repr_short(pair.r), "generated": canon(g)[:200], "schedule": schedule.to_json()})
